@@ -190,7 +190,16 @@ def oracle(case, stats=None):
         else:
             sol0, e0 = run_lp(mat)
     except Exception as e:
-        return skip("base_raised_" + type(e).__name__)      # judged by C05
+        # an exception on a well-posed instance is judged by C05; here it matters only if another presentation of the
+        # same instance (operator form with a user KKT solver, which bypasses the built-in pre-checks) is answered
+        try:
+            solx, ex = run_qp(mat, operator=True) if qp else run_lp(mat, operator=True)
+        except Exception:
+            return skip("base_raised_" + type(e).__name__)
+        if solx["status"] == "optimal" and kind == "feas":
+            raise Violation("the matrix presentation with the default KKT solver raised %s: %s while the operator "
+                            "presentation of the same well-posed problem returned 'optimal'" % (type(e).__name__, e))
+        return skip("base_raised_" + type(e).__name__)
     A0 = summarize(mat, sol0, e0, qp)
     # ---- second presentation
     scale = 1.0
